@@ -199,6 +199,59 @@ pub fn run(outdir: &Path, tier: &str, seed: u64, shards: usize, replay: Option<S
             }
             others.push(format!("({}, {})", coq::s("sdl with fields in several extend blocks"), o.coq));
         }
+        // the same schema with every enum and input object of two or more members written as a definition that
+        // keeps the first member plus an `extend enum` / `extend input` block with the others (legal SDL)
+        {
+            let sdl = p.schema.render_sdl();
+            let mut out = String::new();
+            let mut tail = String::new();
+            let mut cur: Option<(String, usize)> = None; // (extension header, members seen)
+            let mut moved = 0usize;
+            for l in sdl.lines() {
+                let is_enum = l.starts_with("enum ") && l.ends_with('{');
+                let is_input = l.starts_with("input ") && l.ends_with('{');
+                if is_enum || is_input {
+                    let name = l.split_whitespace().nth(1).unwrap_or("").to_string();
+                    cur = Some((format!("extend {} {} {{\n", if is_enum { "enum" } else { "input" }, name), 0));
+                    out.push_str(l);
+                    out.push('\n');
+                } else if l.starts_with('}') && cur.is_some() {
+                    let (hdr, k) = cur.take().unwrap();
+                    if k >= 2 {
+                        // the members after the first were collected behind the header
+                        tail.push_str(&hdr);
+                        tail.push_str("}\n\n");
+                    }
+                    out.push_str(l);
+                    out.push('\n');
+                } else if let Some((hdr, k)) = cur.as_mut() {
+                    if l.trim().is_empty() {
+                        continue;
+                    }
+                    *k += 1;
+                    if *k == 1 {
+                        out.push_str(l);
+                        out.push('\n');
+                    } else {
+                        hdr.push_str(l);
+                        hdr.push('\n');
+                        moved += 1;
+                    }
+                } else {
+                    out.push_str(l);
+                    out.push('\n');
+                }
+            }
+            if moved > 0 {
+                out.push_str(&tail);
+                let o = gencase::observe_text(p, &out, "graphql");
+                if o.coq != base.coq {
+                    differing.push("sdl with enum and input extensions".to_string());
+                }
+                others.push(format!("({}, {})", coq::s("sdl with enum and input extensions"), o.coq));
+                *dist.entry("schemas rendered with extend enum / extend input".to_string()).or_default() += 1;
+            }
+        }
         for f in ["extend", "one_of", "deprecated", "explicit roots", "union", "interface"] {
             let has = match f {
                 "extend" => p.schema.defs.iter().any(|d| matches!(d, TypeDef::Extend { .. })),
@@ -224,7 +277,7 @@ pub fn run(outdir: &Path, tier: &str, seed: u64, shards: usize, replay: Option<S
     let cs = CaseSet {
         run_module: "RunC07".into(),
         cases,
-        checkers: vec!["corr".into(), "corr_json_builder".into(), "corr_render".into(), "prop_same".into()],
+        checkers: vec!["corr".into(), "corr_json_builder".into(), "corr_render".into(), "prop_same".into(), "known_sdl_nonobject_extension_ignored".into()],
         extra_imports: vec!["TypeExpr".into(), "Schema".into(), "SchemaJson".into(), "Query".into(), "Attrs".into(), "Codegen".into(), "RunGen".into()],
         preludes: vec![],
     };
